@@ -21,13 +21,13 @@ Monitors (name = <api variant>.<clause>):
                      (kept as its own monitor: known defect, DESIGN.md section 8)
 
 Deliberately left out / allowed (so that nothing fires that the statement does not demand):
-  * update_bipartitions=True re-encodes with Tree.encode_bipartitions() defaults, which (documented there)
-    collapses the basal bifurcation of a not-rooted tree and suppresses unifurcations.  With
-    update_bipartitions=True the oracle therefore accepts, for suppress_unifurcations=False, either the
-    unsuppressed or the fully suppressed spec tree, and for a tree that is not rooted it compares unrooted
+  * update_bipartitions=True re-encodes with Tree.encode_bipartitions(), which (documented there) collapses the
+    basal bifurcation of a not-rooted tree: for a tree that is not rooted the oracle compares unrooted
     splits + path lengths + "clades are a subset of the spec clades with at most one missing" instead of the
-    exact rooted structure.  Set STRICT_DECLINED_WITH_UPDATE = True to demand that declined suppression is
-    honoured also when update_bipartitions=True (fires on the unchanged tree).
+    exact rooted structure.  (Until 40665ae3 the re-encoding also ran with its default suppress_unifurcations=True
+    whatever the caller had asked for, and the oracle accepted either tree for suppress_unifurcations=False;
+    the property quantifies over both settings of both options and says "unless suppression is declined", so
+    this was a genuine defect: repaired, and STRICT_DECLINED_WITH_UPDATE is on.)
   * Child order is not compared (the statement speaks of the induced tree, not of an ordering).
   * prune_taxa & co. on trees with taxon-less leaves that were not asked to be removed (they are removed by the
     trailing prune_leaves_without_taxa, the extraction variants keep them): outside the quantifier
@@ -50,7 +50,7 @@ import dendropy
 from dendropy.datamodel.taxonmodel import TaxonNamespace, Taxon
 from dendropy.datamodel.treemodel import Node, Tree
 
-STRICT_DECLINED_WITH_UPDATE = False
+STRICT_DECLINED_WITH_UPDATE = True
 MAX_REPORT_PER_MONITOR = 12
 HANG_SECONDS = 3
 HANG_LIMIT = 3      # per worker process and variant: afterwards the variant is reported without being run
